@@ -302,7 +302,35 @@ def rule_consume_c10(ctx):
     rule_consume(ctx, "C10.CONSUME")
 
 
+def rule_negotiated_version(ctx):
+    """NEG-VERSION: both sides parameterise the key agreement (padding of the FFDH secret, permitted
+    groups) with the NEGOTIATED version.  In TLS 1.3 the legacy ServerHello.server_version /
+    ClientHello.client_version fields say (3, 3); the TLS 1.3 handshake functions never read them,
+    and every key-exchange object they build takes `self.version` / the `version` they were given."""
+    R = "C10.NEG-VERSION"
+    n_kex = 0
+    for q in (TLSCONN + "_clientTLS13Handshake", TLSCONN + "_serverTLS13Handshake"):
+        fi = ctx.index.func(q)
+        legacy = [x for x in ast.walk(fi.node) if isinstance(x, ast.Attribute)
+                  and x.attr in ("server_version", "client_version") and isinstance(x.ctx, ast.Load)]
+        ctx.check(R, not legacy, fi.qname, "%s does not read the legacy version fields" % fi.short,
+                  "`%s` reads a legacy hello version field inside the TLS 1.3 handshake: there it is (3, 3), not "
+                  "the negotiated version, so anything derived from it (key agreement padding, verify-bytes "
+                  "layout) differs from what the peer computes" % (norm(legacy[0]) if legacy else ""),
+                  fi.loc(legacy[0]) if legacy else fi.loc())
+        for c in calls_in(fi.node):
+            if call_name(c) in ("_getKEX", "FFDHKeyExchange", "ECDHKeyExchange", "KEMKeyExchange") and len(c.args) >= 2:
+                n_kex += 1
+                v = norm(c.args[1])
+                ctx.check(R, v in ("self.version", "version", "(3, 4)"), fi.qname,
+                          "`%s` built for the negotiated version" % norm(c)[:60],
+                          "the key exchange object `%s` is parameterised with `%s`, not the negotiated version"
+                          % (norm(c)[:60], v), fi.loc(c))
+    ctx.require(n_kex >= 2, "C10.NEG-VERSION: key exchange constructions in the TLS 1.3 handshakes not found")
+
+
 RULES = [
+    ("C10.NEG-VERSION", "quick", rule_negotiated_version),
     ("C10.SIGN-VERIFY", "quick", rule_sign_verify),
     ("C10.PEER-VALUES", "quick", rule_peer_values),
     ("C10.CONSUME", "quick", rule_consume_c10),
